@@ -203,3 +203,26 @@ Lemma is_module_folder_name_last c q n :
   is_module_folder_name c (q ++ [Norm n])%list =
   bytes_eqb n (module_folder_name c) || opt_bytes_eqb (name_stem n) (module_folder_name c).
 Proof. unfold is_module_folder_name. rewrite file_stem_snoc, file_name_snoc. reflexivity. Qed.
+
+(** the darklua configuration in [project/] (not the working directory), [project/.luaurc] with
+    [{"aliases": {"pkg": "packages"}}]: [require("@pkg/lib")] in [project/src/main.lua] is
+    [project/packages/lib.lua] (the [.luaurc] alias is not joined onto the configuration
+    location: the decoy [project/project/packages/lib.lua] is not chosen), and convert_require
+    path -> luau writes [require("../packages/lib")], which is the same file *)
+Example configuration_in_subdirectory_luaurc_alias :
+  let cur := {| c_luau := false; c_mfn := S "init"; c_sources := [(S "vendor", Pn ["vendor"])];
+                c_project := Some (Pn ["project"]); c_use_rc := true |} in
+  let tgt := {| c_luau := true; c_mfn := S "init"; c_sources := [(S "@vendor", Pn ["vendor"])];
+                c_project := Some (Pn ["project"]); c_use_rc := true |} in
+  let rcs : rc_files := [(Pn ["project"], [(S "pkg", Pn ["packages"])])] in
+  let f := mk_fs [Pn ["project"; "src"; "main.lua"]; Pn ["project"; ".luaurc"];
+                  Pn ["project"; "packages"; "lib.lua"]; Pn ["project"; "project"; "packages"; "lib.lua"];
+                  Pn ["project"; "vendor"; "lib.lua"]; Pn ["vendor"; "lib.lua"]] in
+  let src := Pn ["project"; "src"; "main.lua"] in
+  find_require cur rcs f src (S "@pkg/lib") = Found (Pn ["project"; "packages"; "lib.lua"]) /\
+  find_require tgt rcs f src (S "@pkg/lib") = Found (Pn ["project"; "packages"; "lib.lua"]) /\
+  find_require cur rcs f src (S "vendor/lib") = Found (Pn ["project"; "vendor"; "lib.lua"]) /\
+  generate_require tgt src (Pn ["project"; "packages"; "lib.lua"]) = S "../packages/lib" /\
+  find_require tgt rcs f src (S "../packages/lib") = Found (Pn ["project"; "packages"; "lib.lua"]) /\
+  generate_require tgt src (Pn ["project"; "vendor"; "lib.lua"]) = S "@vendor/lib".
+Proof. vm_compute. repeat split; reflexivity. Qed.
